@@ -735,6 +735,13 @@ func (ev *Eval) callExpr(n *ast.CallExpr) Value {
 			return x.unbox(ev.st, iv.Data, t)
 		}
 		return &PtrV{Loc: &Loc{Kind: LObj, Ref: iv.Data, Root: pt.Elem(), Typ: pt.Elem()}, Elem: pt.Elem()}
+	case "sameslice":
+		a, ok1 := ev.eval(n.Args[0]).(*SliceV)
+		b, ok2 := ev.eval(n.Args[1]).(*SliceV)
+		if !ok1 || !ok2 {
+			ev.fail("sameslice on non-slices")
+		}
+		return &Prim{T: And(Eq(a.Ptr, b.Ptr), Eq(a.Off, b.Off), Eq(a.Len, b.Len))}
 	case "isnil":
 		v := ev.eval(n.Args[0])
 		return &Prim{T: x.valuesEqual(ev.st, v, &PtrV{Loc: nil}, nil)}
@@ -766,11 +773,11 @@ func (ev *Eval) callExpr(n *ast.CallExpr) Value {
 		s, _ := strconv.Unquote(exprString(n.Args[0]))
 		key := x.prog.cs.expand(s)
 		nn, _ := isIntLit(ev.term(n.Args[1]))
-		rs := ev.fr.callRes[key]
-		if nn < 1 || int(nn) > len(rs) || rs[nn-1] == nil {
-			ev.fail("callres: no call #%d of %s on this path", nn, key)
+		res, okc := ev.st.callResult(ev.fr.id, key, int(nn))
+		if !okc || res == nil {
+			// no such call on this path: an unconstrained value (only usable under a false guard)
+			return &IfaceV{Tag: x.global("undef@tag", SInt), Data: x.global("undef@data", SInt)}
 		}
-		res := rs[nn-1]
 		if len(n.Args) == 3 {
 			i, _ := isIntLit(ev.term(n.Args[2]))
 			return res.(*TupleV).E[i]
@@ -867,6 +874,23 @@ func (ev *Eval) methodCall(sel *ast.SelectorExpr, argExprs []ast.Expr) (Value, b
 	case *PtrV:
 		if w.Loc != nil {
 			rt = types.NewPointer(w.Loc.Typ)
+		}
+	case *IfaceV:
+		if w.Typ != nil && types.IsInterface(w.Typ) {
+			// interface method: pure interface contract
+			key := typeKey(w.Typ) + "." + sel.Sel.Name
+			ct := ev.x.prog.cs.Funcs[key]
+			obj, _, _ := types.LookupFieldOrMethod(w.Typ, true, nil, sel.Sel.Name)
+			f, isF := obj.(*types.Func)
+			if ct == nil || !ct.Pure || !isF {
+				ev.fail("interface method %s used in a contract expression needs a `pure` interface contract", key)
+			}
+			args := []Value{recv}
+			for _, a := range argExprs {
+				args = append(args, ev.eval(a))
+			}
+			res := ev.x.pureResults(ev.st, key, f.Type().(*types.Signature), args)
+			return res[0], true
 		}
 	}
 	if rt == nil {
